@@ -78,3 +78,64 @@ def analysis_object(ctx, module, clsname):
     a read of per-run state raises AttributeError -> surfaces as RAISES and fails the extraction"""
     cls = ctx.world.cls(module, clsname)
     return Obj(cls)
+
+
+class Graph:
+    """abstract CFG neighbourhoods made with tealer's own constructors (blocks, edges, subroutines, a function)"""
+
+    def __init__(self, ctx):
+        self.ctx = ctx
+        self.b = Builder(ctx)
+        self.w = ctx.world
+        self.SUB = self.w.cls("tealer.teal.subroutine", "Subroutine")
+        self.FN = self.w.cls("tealer.teal.functions", "Function")
+        self.TEAL = self.w.cls("tealer.teal.teal", "Teal")
+        self.teal = Obj(self.TEAL, _version=8, _int_constants=[], _byte_constants=[])
+        self.blocks = {}
+        self.subs = {}
+        self._n = 0
+
+    def block(self, name, instrs):
+        bb, objs = self.b.block(instrs, idx=self._n, teal=self.teal)
+        bb.fields["__tag__"] = name
+        self._n += 1
+        self.blocks[name] = bb
+        return bb
+
+    def edge(self, a, b, block_edge=True):
+        """block edge a -> b plus the instruction edge exit(a) -> entry(b), as the four parser passes create them;
+        block_edge=False adds only the instruction edge (second edge to the same block: `bz L` directly followed by `L:`)"""
+        a, b = self.blocks[a], self.blocks[b]
+        if block_edge:
+            self.w.call(self.w.method(a, "add_next"), b)
+            self.w.call(self.w.method(b, "add_prev"), a)
+        ia, ib = self.w.getattr(a, "exit_instr"), self.w.getattr(b, "entry_instr")
+        self.w.call(self.w.method(ia, "add_next"), ib)
+        self.w.call(self.w.method(ib, "add_prev"), ia)
+
+    def subroutine(self, name, entry, blocks):
+        s = self.w.new(self.SUB, name, self.blocks[entry], [self.blocks[x] for x in blocks])
+        it = Interp(self.SUB.mod)
+        for x in blocks:
+            it.assign_attr(self.blocks[x], "subroutine", s)
+        self.subs[name] = s
+        return s
+
+    def call(self, callsub_block, sub):
+        """bind the callsub instruction ending `callsub_block` to subroutine `sub`"""
+        bb = self.blocks[callsub_block]
+        ins = self.w.getattr(bb, "exit_instr")
+        Interp(self.SUB.mod).assign_attr(ins, "called_subroutine", self.subs[sub])
+
+    def function(self, main, subs=()):
+        m = self.subs[main]
+        allb = list(self.w.getattr(m, "blocks"))
+        for s in subs:
+            allb += list(self.w.getattr(self.subs[s], "blocks"))
+        # contract-level caller tables, as parse_teal fills them
+        for s in subs:
+            callers = [bb for bb in self.blocks.values()
+                       if self.w.getattr(bb, "is_callsub_block") and self.w.getattr(bb, "called_subroutine") is self.subs[s]]
+            Interp(self.SUB.mod).assign_attr(self.subs[s], "caller_blocks", callers)
+        fn = self.w.new(self.FN, "f", self.w.getattr(m, "entry"), allb, self.teal, m, {s: self.subs[s] for s in subs})
+        return fn
